@@ -412,6 +412,9 @@ class Verifier:
             inputs[p] = frame.env[p]
         for g, (ty, init) in con.ghost.items():
             frame.env[g] = eng.eval_spec(init, frame)
+        for g, ty in con.ghost_params.items():
+            frame.env[g] = eng.make(ty, g)
+            inputs[g] = frame.env[g]
         eng.inputs = inputs
         if self.concrete_inputs is not None:
             self.constrain_concrete(eng, inputs, self.concrete_inputs)
